@@ -611,9 +611,18 @@ class Poly:
                     return Poly({(): Cyc.rat(abs(v))} if v else {}, self.isint)
                 return self if complex(c).real >= 0 else -self
             raise Unsupported("abs of complex constant")
-        if not self.is_real_valued():
-            raise Unsupported("abs of symbolic complex")
         import z3
+        if not self.is_real_valued():
+            re, im = self.real, self.imag
+            if re.is_zero():
+                return abs(im)
+            if im.is_zero():
+                return abs(re)
+            from .sym import current
+            c = current()
+            r = c.fresh_real("abs")
+            c.side.append(z3.And(r >= 0, r * r == (re * re + im * im).to_z3()))
+            return Poly.atom(r)
         z = self.to_z3()
         return Poly.atom(z3.If(z >= 0, z, -z), isint=self.isint)
 
